@@ -48,7 +48,7 @@ def register(PROPS):
             'the table entries count days from 1858-11-16 (MJD+1); this is fixed by published first-of-month dates (Umm al-Qura 1 Muharram 1440 = 2018-09-11, '
             '1 Ramadan 1445 = 2024-03-11; Diyanet 1 Ramazan 1443 = 2022-04-02, 1 Muharrem 1444 = 2022-07-30), not by reading scale.c',
             'coverage of a table calendar = first listed month up to, not including, the last listed month (whose length the table cannot give); '
-            'the last listed month and the 30 days from its first are left out of the oracle in both directions',
+            'whether the last listed month and the 30 days from its first belong to the calendar is left open, but the two directions must agree there: a date of that month that maps must map back to itself',
             'a Hijri date is enumerated only up to the month length the code itself reports; whether that length is 29 or 30 is not judged',
             'only all-day instants are converted; the time part must come through unchanged',
             'mode stream: Hijri dates of the occurrences are obtained with echs_instant_rescale (judged by g2h/h2g); a MONTHLY/YEARLY event whose DTSTART falls on a Hijri day 30 is not judged '
